@@ -47,6 +47,33 @@ def oracle(case):
     return None
 
 
+def guided(a, b):
+    """Where the walk model and the run differ: C08's statement on the run, with the model's answer to "exists and is not
+    excluded by a filter" (the filter semantics are C14's) - so that the violation is reported with its input."""
+    if not isinstance(a, dict) or not isinstance(b, dict) or a == b or 'archived' not in a:
+        return None
+    if a.get('archived') is not None and b.get('archived') is not None:
+        have = {tuple(x) for x in b['archived']}
+        def strings(x):
+            return [x] if isinstance(x, str) else [y for z in x for y in strings(z)] if isinstance(x, (list, tuple)) else []
+        errs = strings(b.get('errors')) + strings(a.get('errors')) + strings(b.get('item_errors')) + strings(a.get('item_errors'))
+        miss = [tuple(x) for x in a['archived'] if tuple(x) not in have
+                and not any(x[1] == e or x[1].startswith(e.rstrip('/') + '/') for e in errs)]
+        if miss and b['exit0']:
+            return 'exit status 0, but %s %s - which exists and, by the walk model, is excluded by no filter rule - is absent from the published backup (%d such paths)' % (miss[0][0], miss[0][1], len(miss))
+        if miss:
+            return 'errors were reported, but the published backup also lacks %s %s, which none of the reported errors concerns (%d such paths)' % (miss[0][0], miss[0][1], len(miss))
+    def strs(x):
+        return [x] if isinstance(x, str) else [y for z in x for y in strs(z)] if isinstance(x, (list, tuple)) else []
+    unreported = [e for e in strs(a.get('errors')) if e not in strs(b.get('errors'))]
+    if unreported and '\ufffd' not in ''.join(unreported):
+        return '%s could not be read and is not reported at error level (%s)' % (unreported[0], 'a mere warning' if unreported[0] in strs(b.get('warns')) else 'no message')
+    if b.get('exit0') and not a.get('exit0') and (a.get('errors') or a.get('item_errors') or a.get('hook_failed')):
+        what = (a.get('errors') or a.get('item_errors') or a.get('hook_failed'))
+        return 'exit status 0 although %s could not be backed up (no error-level report; the walk model reports it and exits non-zero)' % (what,)
+    return None
+
+
 def check(ctx):
     aud = core.audit(ctx.prop)
     core.report_audit(ctx, aud)
@@ -62,7 +89,8 @@ def check(ctx):
         a, b = wc.normalize_pair(wc.model_view(m, c), wc.impl_view(c))
         mv.append(a); iv.append(b)
     slim = [{k: v for k, v in c.items() if k not in ('base',)} for c in cases]
-    st = core.judge(ctx, slim, mv, iv, lambda c, i: oracle(c), label='walk')
+    byimpl = {id(b): a for a, b in zip(mv, iv)}
+    st = core.judge(ctx, slim, mv, iv, lambda c, i: oracle(c) or guided(byimpl.get(id(i)), i), label='walk')
     kinds = {}
     for c in cases:
         for f in c['faults']:
